@@ -110,6 +110,9 @@ CATALOGUE = [
     # a backward '. =' whose target is only known later (the check runs after the rest of the file has been compiled)
     ("backward-skip-late-target", ["bklab7:", "{I}«. = »bklab7 - bkoff7", "{I}nop", "bkoff7 = 4"], "value-out-of-bounds", "error", ("S", "T")),
     ("dangling-comma-insn", ["{I}«mov r0   », "], "invalid-operand", "critical", ("T",)),
+    ("dangling-third-comma-data", ["{I}«.byte 1, 2, 3»,", "{I}.even"], "invalid-operand", "critical", ("T",)),
+    ("dangling-second-comma-insn", ["{I}«mov r0, r1»,", "{I}.even"], "invalid-operand", "critical", ("T",)),
+    ("dangling-third-comma-words", ["{I}«.word 1, 2 , 3   », ; tail", "{I}.even"], "invalid-operand", "critical", ("T",)),
     ("dangling-comma-insn-next-line", ["{I}«mov r0 ; why", "\t », "], "invalid-operand", "critical", ("T",)),
     ("dangling-operator-comma", ["{I}«.word 5 *   »,2"], "invalid-expression", "critical", ("T",)),
     ("dangling-operator-tab", ["{I}«mov #5 & \t», r0"], "invalid-expression", "critical", ("T",)),
